@@ -9,6 +9,8 @@ import signal
 import sys
 
 script, signame, k = sys.argv[1], sys.argv[2], int(sys.argv[3])
+# a wrapper whose harness was killed (check interrupted from outside) must not spin for ever: no history lasts that long
+signal.alarm(1800)
 WATCHED = ("experimaestro/run.py", "xvschema/jobdir.py")
 count = 0
 fired = False
